@@ -18,6 +18,7 @@ open('/verif/known_findings.jsonl','w').writelines(out)
 P
   git add known_findings.jsonl
 fi
+if git status --short | grep -q "^UU DESIGN.md"; then python3 /verif/tools/keepboth.py DESIGN.md; git add DESIGN.md; fi
 for f in MANIFEST.json props/not_applicable.json; do
   if git status --short | grep -q "^\(UU\|AA\) $f"; then git checkout --ours $f; git add $f; fi
 done
